@@ -137,3 +137,13 @@ pub fn bytes_take_split<'a>(d: &mut &'a [u8], n: usize) -> (r: &'a [u8])
     *d = b;
     a
 }
+// the same for the exclusive slice (T := &mut [u8])
+#[verifier::external_body]
+pub fn bytes_take_split_mut<'a>(d: &mut &'a mut [u8], n: usize) -> (r: &'a mut [u8])
+    requires n <= old(d)@.len(),
+    ensures r@ == old(d)@.take(n as int), final(d)@ == old(d)@.skip(n as int),
+{
+    let (a, b) = std::mem::take(d).split_at_mut(n);
+    *d = b;
+    a
+}
